@@ -70,8 +70,8 @@ class Tok:
 
 
 class ClosureV:
-    __slots__ = ('span', 'caps')
-    def __init__(self, span, caps): self.span, self.caps = span, caps
+    __slots__ = ('span', 'caps', 'tenv')
+    def __init__(self, span, caps, tenv=None): self.span, self.caps, self.tenv = span, caps, tenv
 
 
 class FnItem:
@@ -110,8 +110,8 @@ def deep_clone(v):
 
 
 class Frame:
-    __slots__ = ('fn', 'loc')
-    def __init__(self, fn): self.fn, self.loc = fn, {}
+    __slots__ = ('fn', 'loc', 'tenv')
+    def __init__(self, fn, tenv=None): self.fn, self.loc, self.tenv = fn, {}, tenv
 
 
 class Machine:
@@ -400,7 +400,7 @@ class Machine:
         if s.startswith('ZeroSized: '):
             t = s[len('ZeroSized: '):]
             mm = re.fullmatch(r'\{closure@([^}]+)\}', t)
-            if mm: return ClosureV(mm.group(1), [])
+            if mm: return ClosureV(mm.group(1), [], fr.tenv if fr is not None else None)
             if t.startswith('fn(') or re.match(r"^(for<[^>]*> )?fn\(", t):
                 mm = re.search(r'\{(.+)\}$', t)
                 if mm: return FnItem(mm.group(1))
@@ -447,7 +447,7 @@ class Machine:
         if k == 'repeat':
             v = self.operand(fr, rv[1]); n = int(re.match(r'(\d+)', rv[2]).group(1))
             return [clone_val(v) for _ in range(n)]
-        if k == 'closure': return ClosureV(rv[1], [self.operand(fr, o) for o in rv[2]])
+        if k == 'closure': return ClosureV(rv[1], [self.operand(fr, o) for o in rv[2]], fr.tenv)
         if k == 'adt_named':
             segs, kv = rv[1], rv[2]
             name, en, vi = self.adt_head(segs)
@@ -571,12 +571,12 @@ class Machine:
         raise Inconclusive('cast kind ' + kind)
 
     # ------------------------------------------------------------------ execution
-    def run_fn(self, fn, args):
+    def run_fn(self, fn, args, tenv=None):
         self.depth += 1
         if self.depth > self.max_depth:
             self.depth -= 1
             raise Panic('depth budget exceeded (candidate non-termination) in ' + fn.name)
-        fr = Frame(fn)
+        fr = Frame(fn, tenv)
         for (n, _), a in zip(fn.args, args): fr.loc[n] = Cell(a)
         bb = 'bb0'
         try:
@@ -645,7 +645,25 @@ class Machine:
         for p, r in self.subst: c = p.sub(r, c)
         return c
 
+    def subst_tenv(self, callee, tenv):
+        for g, t in tenv.items():
+            callee = re.sub(r'(?<![\w:])%s(?![\w])' % re.escape(g), lambda m: t, callee)
+        return callee
+
+    def callee_tenv(self, fn, norm):
+        """type environment of the callee frame: generic parameter names (from the source) bound to the explicit arguments at the call site"""
+        if fn.impl is None and '::<' not in norm: return None
+        names = self.decls.fn_generics(fn) if hasattr(self.decls, 'fn_generics') else []
+        if not names: return None
+        m = re.search(r'::<(.*)>$', norm)
+        if not m: return None
+        args = MIR.split_top(m.group(1))
+        args = [a for a in args if not a.startswith("'")]
+        if len(args) != len(names): return None
+        return dict(zip(names, args))
+
     def call(self, callee, args, fr=None):
+        if fr is not None and fr.tenv: callee = self.subst_tenv(callee, fr.tenv)
         ent = self._callee_cache.get(callee)
         if ent is None:
             norm = self.normalise(callee)
@@ -661,7 +679,7 @@ class Machine:
             self.callees_model.add(ent[2]); self.stats['model_calls'] += 1
             return ent[1](self, args, ent[2], fr)
         self.callees_mir.add(ent[1].name)
-        return self.run_fn(ent[1], args)
+        return self.run_fn(ent[1], args, self.callee_tenv(ent[1], ent[2]))
 
     def call_value(self, f, args):
         """invoke a closure value / fn item with the given argument values"""
@@ -669,7 +687,7 @@ class Machine:
         if isinstance(f, ClosureV):
             fn = self.closure_fn(f.span, len(args) + 1)
             self_arg = Ref(Cell(f)) if fn.args[0][1].startswith('&') else f
-            return self.run_fn(fn, [self_arg] + list(args))
+            return self.run_fn(fn, [self_arg] + list(args), f.tenv)
         if isinstance(f, FnItem): return self.call(f.name, list(args))
         if callable(f): return f(self, *args)
         raise Inconclusive('call of non-function value %r' % (f,))
@@ -738,6 +756,13 @@ class Machine:
         if len(out) > 1 and trait is None:
             o2 = [f for f in out if self.decls.impl_info(f.impl)['trait'] is None]
             if o2: out = o2
+        if len(out) > 1 and trait is not None:
+            # impls generated by one macro (From<X> for Y, ...): pick by the trait's type argument against the first parameter type
+            ta = re.search(r'<(.*)>', trait)
+            if ta:
+                want = _base(MIR.split_top(ta.group(1))[0])
+                o2 = [f for f in out if f.args and _base(f.args[0][1]) == want]
+                if len(o2) == 1: out = o2
         if len(out) > 1:
             # disambiguate impls for different instantiations (Path<MetaForm> vs Path<PortableForm>) by generic args
             gen = re.search(r'<(.*)>', self_ty)
